@@ -7,6 +7,7 @@ import PestModel.Stack
 import PestModel.State
 import PestModel.Drv.Core
 import PestModel.Drv.Text
+import PestModel.Drv.Pratt
 
 open Pest
 
@@ -121,7 +122,10 @@ def handle (sess : Session) (line : String) : Session × String :=
     | none =>
       match handleText toks with
       | some r => (sess, r)
-      | none => (sess, "bad-request:" ++ cmd)
+      | none =>
+        match handlePratt toks with
+        | some r => (sess, r)
+        | none => (sess, "bad-request:" ++ cmd)
 
 end Drv
 
